@@ -232,3 +232,8 @@ def sgn0_rfc(rep, tier):
                 r, mdl = pth.ctx.prove(_as_int_term(v1) == _as_int_term(v2))
                 require(rep, r, "sgn0 of %s %s: cached value equals the recomputed one" % (tag, curve), pth.decisions, rp)
             core.explore(run, on_path=on_path, ctx_kwargs=dict(max_decisions=200))
+
+
+# exponentiation: both implementations are proved to compute the n-fold product for every n >= 0 (C08.e), hence agree
+from . import c08 as _c08
+obligation("C14", "pow_agrees_for_every_exponent", bound="every integer exponent n >= 0 for FQ.__pow__ and FQP.__pow__ of both implementations (shared with C08 pow_all_exponents: both equal the n-fold product in an abstract monoid)")(_c08.pow_all_exponents)
